@@ -31,11 +31,12 @@ BRANCHES = ["br", "bne", "beq", "bcc", "blo", "bpl", "bvs", "bgt", "ble", "bhis"
 class Names:
     """symbols visible from one file: its own constants/labels and other files' exports"""
 
-    def __init__(self, consts, labels, ext_consts, ext_labels):
+    def __init__(self, consts, labels, ext_consts, ext_labels, aconsts=()):
         self.consts = consts
         self.labels = labels
         self.ext_consts = ext_consts
         self.ext_labels = ext_labels
+        self.aconsts = list(aconsts)     # address-valued constants (label +- k), used like labels
 
 
 def small_num():
@@ -67,7 +68,7 @@ def const_expr(draw, nm, depth=2, nonlinear=True):
 @st.composite
 def addr_expr(draw, nm, allow_dot=True):
     """an address-valued expression: label, label+-k, . +- k, label + const"""
-    pool = nm.labels + nm.ext_labels
+    pool = nm.labels + nm.ext_labels + nm.aconsts
     k = draw(st.integers(0, 5))
     if (k == 0 and allow_dot) or not pool:
         if not allow_dot:
@@ -89,7 +90,7 @@ def addr_expr(draw, nm, allow_dot=True):
 @st.composite
 def diff_expr(draw, nm):
     """label difference (base-free), possibly scaled"""
-    pool = nm.labels
+    pool = nm.labels + nm.aconsts
     if len(pool) < 2:
         return ("num", draw(small_num()))
     a, b = draw(st.sampled_from(pool)), draw(st.sampled_from(pool))
@@ -247,7 +248,7 @@ def body_stmt(draw, nm, opts, late, branch_targets, depth=0, in_repeat=False):
         es = [first] + draw(st.lists(value_expr(nm, allow_dot), min_size=0, max_size=3))
         return [{"k": "words", "es": es}]
     if k == "dword":
-        es = draw(st.lists(st.one_of(const_expr(nm), value_expr(nm, allow_dot)), min_size=1, max_size=3))
+        es = draw(st.lists(st.one_of(const_expr(nm), value_expr(nm, allow_dot) if opts.get("dword_addr", True) else const_expr(nm)), min_size=1, max_size=3))
         return [{"k": "data", "d": "dword", "es": es}]
     if k == "byte":
         es = draw(st.lists(st.one_of(st.integers(-128, 255).map(lambda v: ("num", v)), const_expr(nm, 1, False).map(lambda e: ("bin", "&", e, ("num", 0o377)))),
@@ -264,7 +265,7 @@ def body_stmt(draw, nm, opts, late, branch_targets, depth=0, in_repeat=False):
             return [{"k": "even"}]
         if which == 1:
             return [{"k": "odd"}, {"k": "data", "d": "byte", "es": [("num", 7)]}]
-        return [{"k": "align", "e": draw(spelled(draw(st.sampled_from([2, 4, 8, 16, 6, 10, 1])), late))}]
+        return [{"k": "align", "e": draw(spelled(draw(st.sampled_from(opts.get("align_moduli", [2, 4, 8, 16, 6, 10, 1]))), late))}]
     if k == "skip":
         return [{"k": "skip", "e": ("bin", "+", ("dot",), draw(spelled(draw(st.integers(0, 16)) * 2, late)))}]
     if k == "repeat":
@@ -327,6 +328,11 @@ def file_body(draw, nm, opts, tag):
         if opts.get("const_label_diff") and len(labels) >= 2 and draw(st.integers(0, 4)) == 0:
             e = draw(diff_expr(Names([], labels, [], [])))
         cdefs.append({"k": "assign", "name": c, "e": e, "export": c in opts.get("exported", ())})
+    for a in nm.aconsts:
+        lab = ("sym", draw(st.sampled_from(labels)))
+        kk = draw(st.integers(-8, 8))
+        e = lab if kk == 0 else ("bin", "+" if kk > 0 else "-", lab, ("num", abs(kk)))
+        cdefs.append({"k": "assign", "name": a, "e": e, "export": a in opts.get("exported", ())})
     alldefs = defs + cdefs
     pos = [draw(st.integers(0, len(stmts))) for _ in alldefs]
     # insert at top level only (never inside a .repeat body): positions index the top-level list
@@ -350,14 +356,15 @@ def program_st(draw, **opts):
         tag = "abc"[f]
         consts = names(f"k{tag}", draw(st.integers(0, 4)))
         labels = names(f"l{tag}", draw(st.integers(1, 5)))
+        aconsts = names(f"a{tag}", draw(st.integers(0, 2))) if opts.get("const_addr") else []
         exp = []
         if nfiles > 1 and opts.get("exports", True):
             exp = [x for x in consts + labels if draw(st.integers(0, 2)) == 0]
-        plan.append((tag, consts, labels, exp))
-    for f, (tag, consts, labels, exp) in enumerate(plan):
-        ext_c = [x for g, (t, c, l, e) in enumerate(plan) if g != f for x in e if x in c]
-        ext_l = [x for g, (t, c, l, e) in enumerate(plan) if g != f for x in e if x in l]
-        nm = Names(consts, labels, ext_c, ext_l)
+        plan.append((tag, consts, labels, exp, aconsts))
+    for f, (tag, consts, labels, exp, aconsts) in enumerate(plan):
+        ext_c = [x for g, (t, c, l, e, a) in enumerate(plan) if g != f for x in e if x in c]
+        ext_l = [x for g, (t, c, l, e, a) in enumerate(plan) if g != f for x in e if x in l]
+        nm = Names(consts, labels, ext_c, ext_l, aconsts)
         o = dict(opts)
         o["exported"] = set(exp)
         body = draw(file_body(nm, o, tag))
